@@ -1306,8 +1306,8 @@ def deviation_streams(chk):
     boundaries other than newline (properties, ini, inc: OffsetComment.val splits at them),
     and PO comments followed by exactly one blank line"""
     rng = chk.rng
-    for fmt in ("properties", "ini", "inc", "po"):
-        for i in range(chk.n(40, 400)):
+    for i in range(chk.n(40, 400)):
+        for fmt in ("po", "properties", "ini", "inc"):
             c = make_case(fmt, rng, 1 + i % 4, exotic=True)
             check_case(chk, c)
             chk.evaluations += 1
